@@ -86,6 +86,10 @@ func (g *gen) property(p string) bool {
 	case "C08":
 		g.genCodabar()
 		g.genTof()
+	case "C17":
+		g.genGF()
+	case "C18":
+		g.genBitList()
 	default:
 		return false
 	}
@@ -369,4 +373,231 @@ func (g *gen) genTof() {
 			}
 		}
 	}
+}
+
+// ---------------------------------------------------------------- C17 Galois fields / polynomials / Reed-Solomon
+
+// the fields the library constructs (tied to /repo by the obligation C17.fields_are_call_sites on BV.Gen)
+var gfFields = [][3]int{{19, 16, 1}, {67, 64, 1}, {285, 256, 0}, {301, 256, 1}, {1033, 1024, 1}, {4201, 4096, 1}}
+
+func (g *gen) ilist(n, max int) string {
+	if n == 0 {
+		return "-"
+	}
+	s := ""
+	for i := 0; i < n; i++ {
+		if i > 0 {
+			s += ","
+		}
+		s += fmt.Sprint(g.intn(max))
+	}
+	return s
+}
+
+func (g *gen) genGF() {
+	for _, f := range gfFields {
+		g.emit("gf.tables %d %d %d", f[0], f[1], f[2])
+		g.emit("gf.inv %d %d %d", f[0], f[1], f[2])
+		g.emit("gf.div0 %d %d %d %d", f[0], f[1], f[2], 1+g.intn(f[1]-1))
+		rows := f[1]
+		all := f[1] <= 256 || g.thorough()
+		if !all {
+			rows = 48
+			if f[1] == 4096 {
+				rows = 12
+			}
+		}
+		for i := 0; i < rows; i++ {
+			a := i
+			if !all {
+				a = g.intn(f[1])
+				if i < 4 {
+					a = []int{0, 1, 2, f[1] - 1}[i]
+				}
+			}
+			g.emit("gf.mulrow %d %d %d %d", f[0], f[1], f[2], a)
+			g.emit("gf.divrow %d %d %d %d", f[0], f[1], f[2], a)
+		}
+		// polynomials
+		for i := 0; i < g.n(150, 2000); i++ {
+			np := 1 + g.intn(12)
+			nq := 1 + g.intn(6)
+			p := g.ilist(np, f[1])
+			q := fmt.Sprint(1+g.intn(f[1]-1)) // non-zero leading coefficient
+			if nq > 1 {
+				q += "," + g.ilist(nq-1, f[1])
+			}
+			if g.intn(6) == 0 {
+				p = "0," + p
+			}
+			g.emit("poly %d %d %d div %s %s", f[0], f[1], f[2], p, q)
+			g.emit("poly %d %d %d mul %s %s", f[0], f[1], f[2], p, q)
+			g.emit("poly %d %d %d add %s %s", f[0], f[1], f[2], p, q)
+		}
+		// Reed-Solomon: sequences of Encode calls on one shared encoder, in random request orders
+		maxK := f[1] - 1
+		if maxK > 600 {
+			maxK = 600
+		}
+		for i := 0; i < g.n(40, 400); i++ {
+			calls := 1 + g.intn(5)
+			s := ""
+			for c := 0; c < calls; c++ {
+				k := 1 + g.intn(maxK)
+				if g.intn(3) == 0 {
+					k = 1 + g.intn(12)
+				}
+				if g.intn(10) == 0 {
+					k = maxK
+				}
+				n := g.intn(40)
+				if g.intn(8) == 0 {
+					n = g.intn(300)
+				}
+				if c > 0 {
+					s += ";"
+				}
+				s += fmt.Sprintf("%d:%s", k, g.ilist(n, f[1]))
+			}
+			g.emit("rs %d %d %d %s", f[0], f[1], f[2], s)
+		}
+		// every check-symbol count once, ascending and descending on shared encoders (history)
+		if g.thorough() || f[1] <= 256 {
+			up, down := "", ""
+			for k := 1; k <= maxK; k++ {
+				d := g.ilist(1+g.intn(6), f[1])
+				if k > 1 {
+					up += ";"
+					down = ";" + down
+				}
+				up += fmt.Sprintf("%d:%s", k, d)
+				down = fmt.Sprintf("%d:%s", k, d) + down
+			}
+			g.emit("rs %d %d %d %s", f[0], f[1], f[2], up)
+			g.emit("rs %d %d %d %s", f[0], f[1], f[2], down)
+		}
+	}
+}
+
+// ---------------------------------------------------------------- C18 BitList
+
+func (g *gen) genBitList() {
+	// exhaustive: every script of up to L operations over a reduced alphabet, from several initial lists
+	inits := []string{"z", "n0", "n1", "n31", "n32", "n33", "n64"}
+	alpha := []string{"a0", "a1", "B165", "b5,3", "b-2,9", "sF", "sL", "A101"}
+	L := g.n(4, 5)
+	var rec func(script []string, length int, depth int)
+	rec = func(script []string, length int, depth int) {
+		// read everything back at the end
+		out := append([]string{}, script...)
+		for i := 0; i < length && i < 80; i++ {
+			out = append(out, fmt.Sprintf("g%d", i))
+		}
+		g.emit("bl %s", joinStr(out))
+		if depth == L {
+			return
+		}
+		for _, a := range alpha {
+			nl := length
+			tok := a
+			switch a {
+			case "a0", "a1":
+				nl++
+			case "B165":
+				nl += 8
+			case "b5,3":
+				nl += 3
+			case "b-2,9":
+				nl += 9
+			case "A101":
+				nl += 3
+			case "sF":
+				if length == 0 {
+					continue
+				}
+				tok = fmt.Sprintf("s0,%d", depth%2)
+			case "sL":
+				if length == 0 {
+					continue
+				}
+				tok = fmt.Sprintf("s%d,%d", length-1, (depth+1)%2)
+			}
+			rec(append(append([]string{}, script...), tok), nl, depth+1)
+		}
+	}
+	for _, in := range inits {
+		n := 0
+		if in != "z" {
+			fmt.Sscanf(in, "n%d", &n)
+		}
+		rec([]string{in}, n, 0)
+	}
+	// random long scripts crossing the 32-bit word and the 128-/1024-word growth boundaries
+	for i := 0; i < g.n(60, 400); i++ {
+		target := []int{40, 100, 4000, 4200, 9000, 33000, 70000}[g.intn(7)]
+		if g.thorough() && g.intn(4) == 0 {
+			target = 200000
+		}
+		in := "z"
+		length := 0
+		if g.intn(3) == 0 {
+			length = g.intn(5000)
+			if g.intn(2) == 0 {
+				length = 32 * g.intn(140)
+			}
+			in = fmt.Sprintf("n%d", length)
+		}
+		script := []string{in}
+		for length < target {
+			switch g.intn(7) {
+			case 0:
+				script = append(script, fmt.Sprintf("a%d", g.intn(2)))
+				length++
+			case 1:
+				script = append(script, fmt.Sprintf("B%d", g.intn(256)))
+				length += 8
+			case 2, 3:
+				k := g.intn(33)
+				if g.intn(10) == 0 {
+					k = g.intn(70)
+				}
+				x := int64(g.next())
+				if g.intn(2) == 0 {
+					x = int64(g.intn(1 << 20))
+				}
+				script = append(script, fmt.Sprintf("b%d,%d", x, k))
+				length += k
+			case 4:
+				if length > 0 {
+					script = append(script, fmt.Sprintf("s%d,%d", g.intn(length), g.intn(2)))
+				}
+			case 5:
+				if length > 0 {
+					script = append(script, fmt.Sprintf("g%d", g.intn(length)))
+				}
+			case 6:
+				n := g.intn(40)
+				b := "A"
+				for j := 0; j < n; j++ {
+					b += string(byte('0' + g.intn(2)))
+				}
+				if n > 0 {
+					script = append(script, b)
+					length += n
+				}
+			}
+		}
+		g.emit("bl %s", joinStr(script))
+	}
+}
+
+func joinStr(a []string) string {
+	s := ""
+	for i, x := range a {
+		if i > 0 {
+			s += " "
+		}
+		s += x
+	}
+	return s
 }
